@@ -141,3 +141,60 @@ def alias(tier_):
     for h, x in bad[:5]:
         out["observations"].append("alias registry deviates from the write-once map: step %d %s in history %s" % (x["step"], x["clause"], h))
     return out
+
+
+def lost_echo(fx):
+    """ClientImpl.tla: the client object as commands.py uses it, incl. upload echoes that never arrive (the persisted flags
+    lag behind the server until the next connecting command re-synchronises them)."""
+    import c11
+    out = {"spec": "spec/fe/ClientImpl.tla", "observations": []}
+    r = run_tlc("ClientImpl", "CONSTANT MaxLost = 2\nSPECIFICATION Spec\nINVARIANT DiskNotAhead\nINVARIANT LagOnlyAfterLoss\nINVARIANT Searchable\n"
+                              "PROPERTY RefinesClientSM\nCHECK_DEADLOCK FALSE\n", workers=2, heap="1g", name="clientimpl")
+    out["model"] = {"distinct": r.distinct, "generated": r.generated, "checked": ["DiskNotAhead", "LagOnlyAfterLoss", "Searchable", "RefinesClientSM"]}
+    scen = [["create", "genkey", "encrypt", "upconfig!", "upconfig", "upindex", "search"],
+            ["create", "genkey", "encrypt", "upconfig", "upindex!", "search", "upindex"],
+            ["create", "genkey", "upconfig!", "encrypt", "upindex!", "search", "search"],
+            ["create", "genkey", "encrypt", "upconfig", "upindex", "search"]]
+    traces = []
+    for k, h in enumerate(scen):
+        d = os.path.join(subdir("growth"), "lost%d" % k)
+        run = c11.Run({"cfg": fx["cfg"], "db": fx["db"], "bad": [fx["cfg"]]}, d)
+        run.w.cproxy.cap = 0.4            # a lost echo is noticed after 0.4 s instead of 60 s
+        import frontend.server.services.service as sservice
+        real_send = sservice.send_message
+        drop = {"on": False}
+
+        def send(ws, sid, typ, content, **kw):
+            if drop["on"] and typ in ("config", "upload_edb"):
+                drop["on"] = False
+                return asyncio.get_running_loop().create_future()      # never sent
+            return real_send(ws, sid, typ, content, **kw)
+        sservice.send_message = send
+
+        async def go():
+            await run.w.start_server()
+            for sym in h:
+                if sym.endswith("!"):
+                    drop["on"] = True
+                await run.step(sym.rstrip("!"))
+                e = run.ev[-1]
+                if sym.endswith("!") and e["raw"].startswith("raised:TimeoutError"):
+                    e["out"] = "noecho"
+            await run.w.shutdown()
+        loop = asyncio.new_event_loop()
+        loop.set_exception_handler(lambda l, c: None)
+        try:
+            loop.run_until_complete(asyncio.wait_for(go(), 120))
+        except Exception as ex:
+            out["observations"].append("lost-echo scenario %d did not complete: %r" % (k, ex))
+        finally:
+            loop.close()
+            sservice.send_message = real_send
+            shutil.rmtree(d, ignore_errors=True)
+        traces.append({"tid": "lost%d" % k, "ev": run.ev})
+    v, _ = validate_traces("Trace_ClientImpl", traces, consts="CONSTANT MaxLost = 2\n", name="clientimpl")
+    out["scenarios"] = [{"history": h, "verdict": v["lost%d" % k]} for k, h in enumerate(scen)]
+    for k, h in enumerate(scen):
+        if not v["lost%d" % k]["ok"]:
+            out["observations"].append("DRIFT: client run %s is not a behaviour of ClientImpl (step %d %s)" % (h, v["lost%d" % k]["step"], v["lost%d" % k]["clause"]))
+    return out
